@@ -49,6 +49,7 @@ int save_context (error_context_t * econ) {
     }
   econ->save_command_giver = command_giver;
   econ->save_sp = sp;           /* stack pointer */
+  econ->save_num_varargs = num_varargs;
   econ->save_csp = csp;         /* control stack pointer */
   econ->save_context = current_error_context;
 
@@ -102,6 +103,9 @@ void pop_context (error_context_t * econ) {
 void restore_context (error_context_t * econ) {
 
   command_giver = econ->save_command_giver;
+  /* an error between the expansion of 'args...' and the call that takes the
+   * arguments must not leave the count for an unrelated call */
+  num_varargs = econ->save_num_varargs;
   DEBUG_CHECK (csp < econ->save_csp, "csp is below econ->csp before unwinding.\n");
   if (csp > econ->save_csp)
     {
@@ -198,6 +202,9 @@ void error_handler (const char *err) {
   /* in case we're going to longjmp() from load_object or destruct_object */
   reset_destruct_object_limits();
   reset_load_object_limits();
+  /* arguments expanded by '...' belonged to a call that will not happen;
+   * the master's error handler below must not inherit their count */
+  num_varargs = 0;
 
   if (current_error_context &&
       ((current_error_context->save_csp + 1)->framekind & FRAME_MASK) == FRAME_CATCH &&
